@@ -61,7 +61,7 @@ def run(ctx, spec):
             cases = load_corpus(prop, comp["comp"]) + comp["gen"](ctx.rng, ctx.tier)
             ctx.cov["distribution"][comp.get("label", comp["comp"])] = comp.get("dist", lambda cs: {})(cases)
             bads += C.corr_component(ctx, comp["comp"], cases, comp.get("nontrivial"), label=comp.get("label"),
-                                     oracle=comp.get("oracle"))
+                                     oracle=comp.get("oracle"), shrink=comp.get("shrink", True))
     elif harness_ok:
         ctx.broken.append("model driver missing (lean build failed)")
     if harness_ok and spec.get("extra"):
@@ -115,7 +115,8 @@ def run(ctx, spec):
             for item in spec["search"](ctx.rng, ctx.tier):
                 comp, cases = item[0], item[1]
                 sb = C.corr_component(ctx, comp, cases, None, label="search:" + comp,
-                                      oracle=item[2] if len(item) > 2 else None)
+                                      oracle=item[2] if len(item) > 2 else None,
+                                      shrink=item[3] if len(item) > 3 else True)
                 sb = [b for b in sb if b["kind"] == "oracle" and match_known(known, b) is None]
                 if sb:
                     hit = C.shrink_case(ctx, comp, sb[0])
